@@ -109,19 +109,22 @@ pub fn family_programs() -> Vec<Program> {
         Op::CreateDir(child.clone()),
         Op::RemoveDir(child),
         Op::RemoveDir("/a".to_string()),
+        Op::Append(m.clone(), Arc::new(b"P".to_vec())),
     ];
     let mut out = vec![];
-    for init_kind in 0..3 {
+    // initial state of the hot path: absent / file / directory / file of 100 000 bytes
+    for init_kind in 0..4 {
         let mut init = vec![("/a".to_string(), true)];
         match init_kind {
-            1 => init.push((m.clone(), false)),
+            1 | 3 => init.push((m.clone(), false)),
             2 => init.push((m.clone(), true)),
             _ => {}
         }
+        let big = init_kind == 3;
         for a in &alphabet {
             for b1 in &alphabet {
                 for b2 in &alphabet {
-                    out.push(Program { init: init.clone(), threads: vec![vec![a.clone()], vec![b1.clone(), b2.clone()]], big: false });
+                    out.push(Program { init: init.clone(), threads: vec![vec![a.clone()], vec![b1.clone(), b2.clone()]], big });
                 }
             }
         }
@@ -381,7 +384,7 @@ pub fn replay(v: &Value) -> CaseResult {
     }
 }
 
-const RULE: &str = "programs of 2..3 threads x 1..3 calls from {create_dir, write session (create_file+write_all+drop), append session, remove_file, remove_dir, exists, metadata, read_dir, read session} over a universe of 4 directory paths, 4 file paths and 2 paths used by both kinds of calls, with overlapping prefixes, optionally pre-populated; each program's schedule tree (decision at every lock acquisition of MemoryFS and every call boundary) is enumerated depth-first with iterative preemption bounding up to the tier's cap (exhaustive when it fits), then random schedules; additionally the systematic family of all 2-thread (1 call || 2 calls) programs over 11 calls around one hot path that changes type (x 3 initial states = 3993 programs; all in thorough, 2500 sampled in quick); oracle: (per-call results, final tree) of every explored schedule must be among the results of the sequential executions (all program-order-respecting interleavings of whole calls on the reference model, cross-checked against a single-threaded run of the real MemoryFS), final tree well-formed, no panic, every step reaches its next yield point within 10 s; non-trivial = program in which two threads with a mutator each touch a common path or a parent/child pair, explored with >=1 preemption; evaluations = scheduled executions";
+const RULE: &str = "programs of 2..3 threads x 1..3 calls from {create_dir, write session (create_file+write_all+drop), append session, remove_file, remove_dir, exists, metadata, read_dir, read session} over a universe of 4 directory paths, 4 file paths and 2 paths used by both kinds of calls, with overlapping prefixes, optionally pre-populated; each program's schedule tree (decision at every lock acquisition of MemoryFS and every call boundary) is enumerated depth-first with iterative preemption bounding up to the tier's cap (exhaustive when it fits), then random schedules; additionally the systematic family of all 2-thread (1 call || 2 calls) programs over 12 calls around one hot path that changes type (x 4 initial states: absent, file, directory, file of 100 000 bytes = 6912 programs; all in thorough, 2500 sampled in quick); one random program in eight starts from 100 000-byte files; oracle: (per-call results, final tree) of every explored schedule must be among the results of the sequential executions (all program-order-respecting interleavings of whole calls on the reference model, cross-checked against a single-threaded run of the real MemoryFS), final tree well-formed, no panic, every step reaches its next yield point within 10 s; non-trivial = program in which two threads with a mutator each touch a common path or a parent/child pair, explored with >=1 preemption; evaluations = scheduled executions";
 
 pub fn run(ctx: &RunCtx) -> i32 {
     // a single case explores thousands of schedules: keep shrinking short
